@@ -287,8 +287,8 @@ func main() {
 	nGen, cases := 2, 40
 	tds := []string{"taint/globals"}
 	if lib.Thorough() {
-		nGen, cases = 4, 80
-		tds = append(tds, "taint/closures", "taint/parameters")
+		nGen, cases = 6, 80
+		tds = append(tds, "taint/closures", "taint/parameters", "taint/interfaces", "taint/sanitizers", "taint/basic", "taint/fields", "taint/tuples", "taint/defers", "taint/validators")
 	}
 	for i := 0; i < nGen; i++ {
 		p := mugo.Generate(lib.Rand(fmt.Sprintf("c05-prog-%d", i)), mugo.Options{Cases: cases})
